@@ -25,7 +25,7 @@ CHECKS = {
         design_ref="6/C03"),
     "C05": dict(
         category="model_checking", engine="Resolve",
-        technique="conflict-resolution rule as TLA+ judge (Resolve.Allowed over exact rational scores); TLC enumerates competitor families; each replayed in the real interpreter under every scripted tie-break pick (random.choice replaced by a scripted pick); observed per-flow outcome and Start events judged by TLC",
+        technique="ColangSM model-checked by TLC for C05S (every conflict resolution of every call over all bounded histories: one group per loop and round, the picked head not beaten on the padded score chains, identical events co-win, every other competitor stopped or sent to its failure handler), every reachable state replayed into the real interpreter; conflict-resolution rule as TLA+ judge (Resolve.Allowed over exact rational scores); TLC enumerates competitor families (incl. a competitor that is stopped while the event is still being processed); each replayed in the real interpreter under every scripted tie-break pick (random.choice replaced by a scripted pick); observed per-flow outcome and Start events judged by TLC",
         text="All families of 2 competing flows and seeded partitions of 3-/4-flow families (specificity 0..3 unmentioned parameters, priority 1.0/0.5, loop parent/named/NEW, identical vs different actions, match fits or not), started or activated, every tie-break pick: per loop exactly one Start for a most-specific winner, identical actions co-win, all others fail, other loops and non-fitting flows untouched.",
         note="trusted: program rendering, observation of flow status/position, Resolve.tla; score vectors of length 1 (no wrapper flows); which tied head wins is left open",
         design_ref="6/C05"),
@@ -57,7 +57,7 @@ CHECKS = {
         category="model_checking", engine="Isolation",
         technique="ColangSM model-checked by TLC over all bounded histories for NoFuelOut (no recursion budget of the specification exhausted = the call returns) and EventBound (internal events per call within StepBound), each history replayed into the real interpreter with micro-step counting; TLA+ judge (Isolation.tla: StepBound(program size), fault-vs-abort differential); micro steps counted by wrapping the interpreter's slide / internal-event functions over the recorded corpus; fault injection at every statement position driven through the real RuntimeV2_x.process_events; observations judged by TLC",
         text="(a) every run_to_completion of generated + hand-written programs (activated flows finishing/failing immediately, restart label, recursion with a wait) stays below a bound linear in compiled elements x live instances (hard cap and wall-clock alarm detect non-termination); (b) 9 fault kinds (bad expressions in assignment, condition, send/start/match arguments, invalid regex, priority, index) x 6 statement positions: nothing escapes process_events, a ColangError is produced, and witness flows in other loops produce exactly the outputs of the run where the statement is an explicit abort, for the same and later events.",
-        note="trusted: step counting wrappers, program templates; StepBound constants fixed from the corpus maximum with slack; ColangSM's fragment excludes parameters / priorities / named loops (those programs are covered by the recorded corpus only)",
+        note="trusted: step counting wrappers, program templates; StepBound constants fixed from the corpus maximum with slack; ColangSM's fragment excludes global variables, constructor-member events and priorities other than 1.0 / 0.5 (those programs are covered by the recorded corpus only)",
         design_ref="6/C10"),
     "C11": dict(
         category="model_checking", engine="ColangSM",
